@@ -102,7 +102,7 @@ func genC19(t *rapid.T) C19Sc {
 		sc.Lists = append(sc.Lists, l)
 	}
 	sc.Initial = uniformInt(t, nl+1, "initial") - 1
-	n := 4 + uniformInt(t, 22, "nops")
+	n := 4 + uniformInt(t, deep(t, 22), "nops")
 	for i := 0; i < n; i++ {
 		op := C19Op{Node: uniformInt(t, sc.Nodes, "op.node")}
 		op.Kind = pick(t, "op.kind", "inq", "inq", "inq", "inr", "ine", "ping", "query", "findnode", "getpeers", "get", "put", "bootstrap", "announce", "tget", "tput", "add", "qp", "setlist", "setlist", "held", "held")
